@@ -4,7 +4,10 @@ mod c04;
 mod c18;
 mod dec;
 mod lab;
+mod c10;
 mod c14;
+mod c16;
+mod c19;
 
 fn main() {
     let argv: Vec<String> = std::env::args().collect();
@@ -14,7 +17,10 @@ fn main() {
         "c03" => c03::run(&args),
         "c04" => c04::run(&args),
         "c18" => c18::run(&args),
+        "c10" => c10::run(&args),
         "c14" => c14::run(&args),
+        "c16" => c16::run(&args),
+        "c19" => c19::run(&args),
         other => {
             eprintln!("unknown property worker: {other}");
             2
